@@ -104,8 +104,16 @@ def _run_one(i: int):
             out = fb
     except _Timeout:
         out = undecided("timeout", f"timeout after {ob.timeout}s")
-    except Exception as e:  # a crash in the generator is undecided + loud, never a violation
-        out = Outcome("error", "generator", 0.0, "".join(traceback.format_exception(e))[-3000:])
+    except Exception as e:  # the generator could not process the current text: undecided (never a violation); the bounded oracle takes over
+        tb = "".join(traceback.format_exception(e))[-3000:]
+        out = undecided("generator", "the VC generator raised on the current text (outside its fragment, or the code raises where no exception is specified): " + tb)
+        if ob.fallback is not None:
+            try:
+                fb = ob.fallback()
+                fb.detail = f"[proof attempt failed: {type(e).__name__}: {str(e)[:200]}] fallback: {fb.detail}"
+                out = fb
+            except Exception as e2:
+                out = undecided("generator", tb + " | fallback also failed: " + "".join(traceback.format_exception(e2))[-800:])
     finally:
         signal.alarm(0)
     if not out.seconds:
